@@ -41,6 +41,8 @@ pub fn exactly(n: usize, memo: &mut Vec<Option<Vec<T>>>, obscured: bool) -> Vec<
             let mut hidden: Vec<T> = vec![T::Leaf(0), T::Leaf(1)];
             hidden.push(T::Assert(Box::new(T::Leaf(0)), Box::new(T::Leaf(1))));
             hidden.push(T::Assert(Box::new(T::Leaf(2)), Box::new(T::Leaf(0))));
+            // a node with an assertion of its own (so that an obscured subject can stand for a node)
+            hidden.push(T::Node(Box::new(T::Leaf(1)), vec![T::Assert(Box::new(T::Leaf(2)), Box::new(T::Leaf(0)))]));
             for h in hidden { for k in 0..3u8 { out.push(T::Obsc(k, Box::new(h.clone()))); } }
         }
     } else {
